@@ -3,6 +3,7 @@ import CJ.Lemmas.Responder
 import CJ.Gen.C11Tables
 import CJ.Gen.C11Index
 import CJ.Gen.C11MapDeref
+import CJ.Gen.C11LruCalls
 import CJ.Props.C14
 /-!
 # C11 — no externally supplied bytes can crash a station or registrar process
@@ -646,6 +647,32 @@ theorem map_extractor_saw_the_code : 60 ≤ CJ.Gen.C11MapDeref.scannedFiles ∧ 
     (∃ s ∈ CJ.Gen.C11MapDeref.mapSites, s.fn = "createdToClose" ∧ s.map = "c.v4geoIPMap" ∧ s.guard = "ensured") ∧
     (∃ s ∈ CJ.Gen.C11MapDeref.mapSites, s.fn = "createdToClose" ∧ s.map = "c.v6geoIPMap" ∧ s.guard = "ensured") ∧
     (∃ s ∈ CJ.Gen.C11MapDeref.mapSites, s.fn = "AddRegStats" ∧ s.map = "s.generations") := by decide
+
+/-! ## the liveness cache under the ingest workers (regenerated table)
+
+`CJ/Gen/C11LruCalls.lean` lists every call the liveness cache makes into its LRU list and whether the cache's
+own mutex is held at that call (go/harness/C11/zz_verif_c11_lrugen_test.go; pinned by fixtures). The list's
+eviction callback takes that mutex. -/
+
+/-- a call into the list made without holding the mutex returns, whether or not it evicts … -/
+theorem liveness_list_call_returns (evicts : Bool) : (listCall .nothing evicts).Safe := by
+  cases evicts <;> simp [listCall, evictionProceeds, Outcome.Safe]
+
+/-- … and one made while holding it — for reading or for writing — never returns once it evicts: the
+ingest worker is stuck with the lock, and every worker that consults the cache queues behind it -/
+theorem liveness_list_call_under_lock_hangs :
+    listCall .readLock true = .hang ∧ listCall .writeLock true = .hang ∧
+    listCall .readLock false = .ok () := by decide
+
+/-- every call the cache makes into the list (`Lookup`'s refresh, `Add`, `ClearExpired`'s removals) is made
+with the mutex released -/
+theorem lru_calls_outside_mutex : ∀ c ∈ CJ.Gen.C11LruCalls.lruCalls, c.mutexHeld = false := by decide
+
+/-- the scan is not empty-handed: it found the callback that locks and the three callers -/
+theorem lru_extractor_saw_the_code : CJ.Gen.C11LruCalls.evictionCallbackLocks = true ∧
+    (∃ c ∈ CJ.Gen.C11LruCalls.lruCalls, c.fn = "Lookup" ∧ c.callee = "lru.Add") ∧
+    (∃ c ∈ CJ.Gen.C11LruCalls.lruCalls, c.fn = "Add" ∧ c.callee = "lru.Add") ∧
+    (∃ c ∈ CJ.Gen.C11LruCalls.lruCalls, c.fn = "ClearExpired" ∧ c.callee = "lru.Remove") := by decide
 
 /-! ## non-vacuity -/
 
